@@ -11,12 +11,12 @@ Definition ex_root : dm :=
 (* R(none, |[ ., a>@ ]) *)
 Definition ex_seq : sel := SUnion [SMatch None; SAll SEdge].
 Definition ex_sel : sel := SRec ex_seq ex_seq None None.
-Definition ex_U := walk_adv ex_g 10 ex_root ex_sel.
+Definition ex_U := walk_adv pinned ex_g 10 ex_root ex_sel.
 
 Example ex_U_ok : snd ex_U = OOk /\ length (visits (fst ex_U)) = 8%nat /\ length (loads (fst ex_U)) = 2%nat.
 Proof. vm_compute. repeat split. Qed.
 
-Example ex_distinct : walk_distinct ex_g 10 ex_root ex_sel = true.
+Example ex_distinct : walk_distinct pinned ex_g 10 ex_root ex_sel = true.
 Proof. vm_compute. reflexivity. Qed.
 
 (* the start path b/1 (the second, repeated, link) is visited *)
